@@ -39,24 +39,36 @@ def streams():
     return [C12Stream()]
 
 
+ASSUMPTIONS = [
+    "component graphs are trees (every component has one predecessor); ids are distinct",
+    "premise wf: >= 1 grid successor, no CHP directly at the grid, every battery inverter has a battery, unmetered load only at "
+    "meters not dedicated to one device type, every CHP below a meter dedicated to CHPs that is not at the same time the grid meter",
+    "all component streams deliver a value (missing samples / NaN are C13's subject)",
+]
+
 META = {
     "technique": "Coq proof (structural induction over component trees with a nested induction principle for the list of "
                  "successors) about a Gallina model of the classification predicates, the stopping DFS, fallback selection and "
-                 "the eight formula generators + differential correspondence: the real generators run on the real "
+                 "the formula generators + differential correspondence: the real generators run on the real "
                  "_MicrogridComponentGraph built from each tree, their postfix steps are read back as signed term lists and "
-                 "executed on a power assignment, and compared with the model evaluated inside Coq (vm_compute)",
+                 "executed (the real steps' apply) on a power assignment, and compared with the model evaluated inside Coq "
+                 "(vm_compute)",
     "level_text": "Machine-checked theorems (closed under the global context), for every tree satisfying the premise and every "
-                  "power assignment: PV (both entry points), EV, CHP and battery formulas equal the device totals, consumer equals "
-                  "the sum of unmetered loads, producer = PV + CHP, grid = consumer + producer + battery + EV; every fallback "
-                  "formula equals its primary. The model is tied to the code by correspondence on all trees up to 4 (quick) / "
-                  "6 (thorough) nodes and random trees up to 10 nodes / depth 4, inside and outside the premise, with and "
-                  "without fallback; the property itself is judged exactly (coefficient vectors over device powers and loads) "
-                  "on the implementation's formulas.",
+                  "power assignment: PV (DFS and pool entry points), EV, CHP and battery formulas equal the device totals; battery "
+                  "and PV pools over any subset of inverters equal the total of exactly the requested ones; consumer equals the "
+                  "sum of unmetered loads; producer = PV + CHP; grid = consumer + producer + battery + EV; the fallback formula "
+                  "of a dedicated meter equals the meter; no grid/consumer/producer term reads a CHP itself; with distinct ids, "
+                  "evaluation by id lookup equals evaluation of the named nodes. The model is tied to the code by correspondence "
+                  "(term lists incl. nones_are_zeros and fallback ids, numeric value) on all trees up to 4 (quick) / 6 (thorough) "
+                  "nodes and random trees up to 10 nodes / depth 4, inside and outside the premise, with and without fallback, "
+                  "with random pool subsets; the property itself is judged exactly (coefficient vectors over device powers and "
+                  "loads, i.e. for all power assignments) on the implementation's formulas.",
     "level_note": "Trusted: Coq kernel + vm_compute, the harness (tree -> ComponentGraph builder, reading the engine's steps, "
-                  "generator coverage), networkx. Modelled, not proved: Python's dict/set keyed by Component is modelled on trees "
-                  "with distinct ids (a dedicated meter occurs once as primary); a term reads the node it names. Trees only: a "
-                  "component with two predecessors is outside the premise. Premise: unmetered load only at meters not dedicated "
-                  "to one device type, every battery inverter has a battery, every CHP sits below a meter dedicated to CHPs that "
-                  "is not at the same time the grid meter (otherwise the consumer/producer formulas read the CHP itself, which "
-                  "has no power stream). NaN/None handling of missing samples is C13's subject, not modelled here.",
+                  "generator coverage), networkx. Modelled, not proved: Python's dict/set keyed by Component is modelled "
+                  "compositionally on trees (a dedicated meter occurs once as primary; a device found by a DFS is never paired "
+                  "with its predecessor because the DFS stops there) - tied by correspondence only. Trees only: a component with "
+                  "two predecessors is outside the premise. A CHP below the grid meter itself (grid -> meter -> CHPs only) is "
+                  "outside the premise: consumer/producer formulas then read the CHP component, which has no power stream "
+                  "(Example C12_chp_below_grid_meter_is_read_directly). NaN/None handling of missing samples is C13's subject. "
+                  "Two defects were found and fixed in /repo (F9, F9b in known_findings.json).",
 }
